@@ -5,6 +5,10 @@ tools/checks.json["not_claimed"])."""
 import json, os, subprocess, sys
 root = os.path.dirname(os.path.dirname(os.path.abspath(__file__)))
 spec = json.load(open(os.path.join(root, "tools", "checks.json")))
+spec["checks"] = {}
+import glob
+for f in sorted(glob.glob(os.path.join(root, "tools", "checks", "C*.json"))):
+    spec["checks"][os.path.basename(f)[:-5]] = json.load(open(f))
 props = [json.loads(l) for l in open(os.path.join(root, "properties.jsonl"))]
 ids = [p["id"] for p in props]
 checks = []
